@@ -20,6 +20,38 @@ THEOREMS = ['C02_configure_interpret', 'C02_wf_interpret_ok', 'C02_interpret_is_
 ALN_NF = re.compile(r'~([A-Za-z]\.?)?(0|[1-9][0-9]*)(,(0|[1-9][0-9]*))*\Z')
 ASCII = re.compile(r'[\x00-\x7f]*\Z')
 
+def sx_dumps_iter(v):
+    """Iterative twin of common.sx_dumps: trees 200 levels deep nest ~800 lists, beyond what the
+    recursive version (a generator inside str.join per level) survives under CPython 3.12's C-stack guard."""
+    out = []
+    stack = [v]
+    while stack:
+        x = stack.pop()
+        if isinstance(x, str):
+            out.append(x)
+        elif isinstance(x, bool):
+            out.append('1' if x else '0')
+        elif isinstance(x, int):
+            out.append(str(x))
+        else:
+            stack.append(')')
+            for y in reversed(list(x)):
+                stack.append(y)
+            stack.append('(')
+    res = ' '.join(out)
+    return res.replace('( ', '(').replace(' )', ')')
+
+
+def deep_safe():
+    """Make the shared wire encoder usable for very deep trees (runtime substitution, common.py untouched)."""
+    import sys
+    sys.setrecursionlimit(max(sys.getrecursionlimit(), 50000))
+    if common.sx_dumps is not sx_dumps_iter:
+        for probe in ([1, [2, [], [3, 0]], []], [[[[]]]], 5, [True, False]):
+            assert sx_dumps_iter(probe) == common.sx_dumps(probe), probe
+        common.sx_dumps = sx_dumps_iter
+
+
 # ------------------------------------------------------------------------------------
 # Python twin of Spec/WfLayout.v (cross-checked against the extracted Coq on every case)
 
@@ -418,7 +450,7 @@ EXC_CODE = {5: 'SurfaceError', 2: 'LayoutError'}
 
 def run(chk):
     chk.rule = ('trees built with fresh variables per node: (1) every tree with <=3 nodes, <=3 non-concept branches per node '
-                '(all with <=3 in total; thorough adds a 15% sample of those with 4), roles {:ARG0,:ARG0-of,:mod}, atoms {x, any variable of the tree, None}, with '
+                '(all with <=3 in total; thorough adds a 7% sample of those with 4), roles {:ARG0,:ARG0-of,:mod}, atoms {x, any variable of the tree, None}, with '
                 'and without concepts; (2) random deep/wide trees (depth<=60 quick, <=200 thorough; width<=30) over 21 roles '
                 '(inverted, doubly inverted, model-defined -of roles), alignments on role/concept/target, empty concept slots, '
                 'concept-less nodes with edges, re-entrancies, cycles, concepts equal to variables, metadata; (3) hand-written '
@@ -427,6 +459,7 @@ def run(chk):
                 'on every case) and non-trivial when the tree has at least two nodes or an alignment.')
     chk.require_theorems('Properties.C02', THEOREMS)
     common.use_repo()
+    deep_safe()
     quick = chk.tier == 'quick'
     rng = chk.rng
 
@@ -448,15 +481,15 @@ def run(chk):
     small = list(small_wf_trees([':ARG0', ':ARG0-of', ':mod'], 3, 3, 3))
     chk.stat('small_trees_enumerated(all, <=3 branches)', len(small))
     if not quick:
-        # four branches in total: 513k trees; a seeded 15% sample of them
+        # four branches in total: 513k trees; a seeded 7% sample of them
         have = set(map(repr, small))
-        extra = [n for n in small_wf_trees([':ARG0', ':ARG0-of', ':mod'], 3, 3, 4) if rng.random() < .15 and repr(n) not in have]
+        extra = [n for n in small_wf_trees([':ARG0', ':ARG0-of', ':mod'], 3, 3, 4) if rng.random() < .07 and repr(n) not in have]
         chk.stat('small_trees_sampled(4 branches)', len(extra))
         small += extra
     for node in small:
         trees.append(('small', node, {}))
     shapes_seen = {}
-    nrandom = 2500 if quick else 40000
+    nrandom = 2500 if quick else 25000
     for i in range(nrandom):
         shapes = set()
         pool = gen.fresh_vars(400)
